@@ -45,7 +45,8 @@ manifest = {
                            'dataflow (E4), literal tables vs generated FIPS tables (E5), numba kernel rules (E6), registries (E7), '
                            'validator rules (E8), partial evaluation of configuration code over its finite domain with cipher data opaque (E9), '
                            'axis-layout interpretation over (rank, axis) configurations (E10), AST inlining / normal forms / guard-clause structuring (E11), trace-count exponents and '
-                           'dimensional analysis (E12), provenance arrays and xor-term evaluation of the key expansion (E13). No repository code is imported or executed.'},
+                           'dimensional analysis (E12), provenance arrays and xor-term evaluation of the key expansion (E13), exact-cancellation abstraction (E14), algebraic value numbering: rational-function normal forms of statistics over '
+                           'symbolic accumulators / tensors with uninterpreted log (E15). No repository code is imported or executed.'},
     ],
     'checks': checks,
     'not_applicable': na,
